@@ -1,5 +1,8 @@
 import StoneVerif.Lemmas.RtCompatFwd4
 import StoneVerif.Lemmas.RtCompatBwd6
+import StoneVerif.Lemmas.RtCompatRefl
+import StoneVerif.Lemmas.RtCompatStrict
+import StoneVerif.Props.C06
 /-!
 Property theorems for C07: backwards-compatible changes (docs/evolve_spec.rst) keep peers interoperable.
 
@@ -55,9 +58,8 @@ A document that the newer spec's decoder accepts and that contains nothing the o
 (`knownDoc`: every member is a field, every tag a tag, every subtype listed, Void tags bare) is accepted by the older
 spec's *strict* decoder too, as the same A-view.  Contrapositive: strict decoding under A refuses only B-messages that
 contain something A does not know.
-The converse half (`knownDoc A tA j = false → decode E A [] true tA j` is a validation error, for documents without
-repeated keys) is not proved: `compat.known` / `compat.mentions` compare it with the real decoder on every case. -/
-theorem strict_accepts_known_partial (E : Ext) {ρ : Rho} {A B : Env} {tA tB : PTy} (hs : subB ρ A B tA tB = true)
+The converse half is `strict_accepts_only_known`; both together: `strict_rejects_iff`. -/
+theorem strict_accepts_known (E : Ext) {ρ : Rho} {A B : Env} {tA tB : PTy} (hs : subB ρ A B tA tB = true)
     (hA : envWF A = true) (hB : envWF B = true) (hxA : envWFX A = true) (huB : envWFU B = true)
     (hw : tyWF A tA = true) (j : JVal) (sB : Bool) (w : PyVal)
     (h : decode E B [] sB tB j = .ok w) (hk : knownDoc A tA j = true) :
@@ -92,6 +94,48 @@ theorem backward_compat_partial (E : Ext) {ρ : Rho} {A B : Env} {tA tB : PTy} (
     (ht : tightDoc A tA (wire E A tA v) = true) (hn : nvrDoc ρ A B tA (wire E A tA v) = true) :
     decode E B [] strict tB (wire E A tA v) = .ok (lift ρ B tB w) :=
   backward_compat_msg E hs hA hB hxA huB hw _ sA strict w ht hn hrt
+
+/-- What strict decoding accepts contains nothing unknown (one environment; documents as `json.loads` produces them:
+no repeated keys). -/
+theorem strict_accepts_only_known (E : Ext) {A : Env} (hA : envWF A = true) {tA : PTy} (hw : tyWF A tA = true)
+    (j : JVal) (hnd : nodupKeys j = true) (w : PyVal) (h : decode E A [] true tA j = .ok w) :
+    knownDoc A tA j = true :=
+  known_of_strict E hA j tA w hw hnd h
+
+/-- STRICT DECODING REJECTS PRECISELY THE MESSAGES THAT CONTAIN SOMETHING UNKNOWN (message form, full generality).
+For every document `j` without repeated keys that the newer spec's decoder accepts (in particular every message encoded
+under B): strict decoding under A fails — and then by the validation error, nothing else — exactly when `j` contains
+something A does not know at this type (`knownDoc A tA j = false`: a member that is no field of the struct it is read
+as, a tag or subtype A does not list, anything beside the tag of a tag that is Void in A).
+`fieldFlagsWF A` (C06: the `bb.Attribute` flags agree with the validators) is needed only for "nothing else escapes".
+The value-level `mentionsUnknown ρ A B tA tB v` of the model is tied to `knownDoc A tA (encoding of v)` by the harness on
+every case (`compat.mentions` / `compat.known`), not by a theorem: hence the message form. -/
+theorem strict_rejects_iff (E : Ext) {ρ : Rho} {A B : Env} {tA tB : PTy} (hs : subB ρ A B tA tB = true)
+    (hA : envWF A = true) (hB : envWF B = true) (hxA : envWFX A = true) (huB : envWFU B = true)
+    (hfA : fieldFlagsWF A = true) (hw : tyWF A tA = true) (j : JVal) (hnd : nodupKeys j = true) (sB : Bool) (w : PyVal)
+    (h : decode E B [] sB tB j = .ok w) :
+    (∃ e, decode E A [] true tA j = .error (.verr e)) ↔ knownDoc A tA j = false := by
+  constructor
+  · rintro ⟨e, he⟩
+    cases hk : knownDoc A tA j with
+    | false => rfl
+    | true =>
+      rw [strict_accepts_known E hs hA hB hxA huB hw j sB w h hk] at he
+      cases he
+  · intro hk
+    cases hd : decode E A [] true tA j with
+    | ok w' =>
+      rw [strict_accepts_only_known E hA hw j hnd w' hd] at hk
+      cases hk
+    | error err =>
+      cases err with
+      | verr e => exact ⟨e, rfl⟩
+      | crash e => exact absurd hd (StoneVerif.C06.decode_no_crash E A [] true tA j hA hfA hw e)
+
+/-- `subB` is reflexive: every accepted spec is an older version of itself (identity correspondence). -/
+theorem sub_refl {A : Env} (hA : envWF A = true) {t : PTy} (ht : tyWF A t = true) :
+    subB (Rho.idOf A) A A t t = true := by
+  simp [subB, compatEnv_refl hA, tySub_refl t ht]
 
 /-- the A-view of `None` is `None` at every type -/
 theorem view_none (ρ : Rho) (A : Env) (t : PTy) : view ρ A t .none = .none :=
